@@ -20,5 +20,7 @@ fi
 IDS="$*"
 [ -z "$IDS" ] && IDS="$(python3 -c "import json,sys; print(json.load(open('$D/meta.json'))['property'])" 2>/dev/null)"
 for id in $IDS; do
-  VERIF_OUT="/var/tmp/rw/out-$NAME" VERIF_REPO="$WT" "$HERE/bin/check" "$id" 2>&1 | grep -E "^(VIOLATION|KNOWN-FINDING|OK)" | sed "s/^/[$id on patched] /"
+  # through a file, not a pipe: a resource tracker left behind by joblib / multiprocessing keeps a pipe open for ever
+  VERIF_OUT="/var/tmp/rw/out-$NAME" VERIF_REPO="$WT" "$HERE/bin/check" "$id" > "/var/tmp/rw/check-$NAME-$id.log" 2>&1 < /dev/null
+  grep -E "^(VIOLATION|KNOWN-FINDING|OK)" "/var/tmp/rw/check-$NAME-$id.log" | sed "s/^/[$id on patched] /"; rm -f "/var/tmp/rw/check-$NAME-$id.log"
 done
